@@ -173,11 +173,18 @@ def run_observables(spec):
         # acoustic modes at Gamma are numerical noise around 0; a cutoff keeps them out on both sides alike
         ph.run_thermal_properties(temperatures=temps, cutoff_frequency=1e-3 * float(np.abs(f).max()))
         tp = ph.get_thermal_properties_dict()
+        from phonopy.phonon.thermal_properties import ThermalProperties
+
+        tpy = ThermalProperties(ph.mesh, cutoff_frequency=1e-3 * float(np.abs(f).max()))
+        tpy.temperatures = temps
+        tpy.run(lang="py")
+        _, Fpy, Spy, Cpy = tpy.thermal_properties
         fmax = float(np.abs(f).max()) + 1e-3
         ph.run_total_dos(sigma=fmax / 25, freq_min=-0.1 * fmax, freq_max=1.15 * fmax, freq_pitch=fmax / 60)
         dos = ph.get_total_dos_dict()["total_dos"]
         res.append({"wsum": w.sum(), "m2": (w[:, None] * f ** 2).sum() / w.sum(), "m1": (w[:, None] * np.abs(f)).sum() / w.sum(),
-                    "F": tp["free_energy"], "S": tp["entropy"], "Cv": tp["heat_capacity"], "dos": dos, "nq": len(w),
+                    "F": tp["free_energy"], "S": tp["entropy"], "Cv": tp["heat_capacity"], "dos": dos,
+                    "F_py": Fpy, "S_py": Spy, "Cv_py": Cpy, "nq": len(w),
                     "mesh": np.array(ph.mesh.mesh_numbers)})
     a, b = res
     ntot = int(np.prod(a["mesh"]))
@@ -186,7 +193,7 @@ def run_observables(spec):
     if a["wsum"] != ntot or b["wsum"] != ntot:
         return Out(ok=False, msg="weights sum %s / %s, grid has %d points" % (a["wsum"], b["wsum"], ntot))
     worst = 0.0
-    for k in ("m2", "m1", "F", "S", "Cv", "dos"):
+    for k in ("m2", "m1", "F", "S", "Cv", "F_py", "S_py", "Cv_py", "dos"):
         x, y = np.asarray(a[k], dtype=float), np.asarray(b[k], dtype=float)
         if np.isnan(x).any() or np.isnan(y).any():
             if np.array_equal(np.isnan(x), np.isnan(y)):
@@ -207,5 +214,5 @@ SUBCHECKS = [
         what="GridPoints: documented grid model, weights = multiplicities, every grid point is an image of its representative"),
     Sub("observables", run=run_observables, strategy=obs_specs, examples={"quick": 500, "thorough": 15000},
         shards={"quick": 8, "thorough": 16}, budget={"quick": 110, "thorough": 1800},
-        what="F, S, C_V, smearing DOS, moments identical with mesh symmetry on and off"),
+        what="F, S, C_V (compiled and Python routes), smearing DOS, moments identical with mesh symmetry on and off"),
 ]
